@@ -252,8 +252,8 @@ class Spec:
             v = self.lookup(scopes, it[1])
             if v is None:
                 raise SpecErr("UnknownFunction")
-            if v == UNDEF:
-                raise SpecErr("InvalidOperation")
+            if v == UNDEF or v[0] == "str":
+                raise SpecErr("InvalidOperation")  # not callable
             if v[0] != "mac":
                 raise NotImplementedError
             return say(v[2])
@@ -359,7 +359,7 @@ def nontrivial(case):
 def run(r):
     r.rule = ("every assignment of {absent, override, super-before, super-after} to 3 blocks (one nestable) for chains of 1 and 2 "
               "templates (exhaustive), seeded random chains of 1..4 templates with static/dynamic/conditional extends, the same "
-              "with 1-2 include/import snippets (24 kinds) at top level / in blocks / loops / macros, plus enumerated inheritance "
+              "with 1-2 include/import snippets (27 kinds) at top level / in blocks / loops / macros, plus enumerated inheritance "
               "cycles, include cycles, double extends and missing templates; a case is non-trivial when it executes an extends, "
               "include or import")
     r.assumptions = [
@@ -388,6 +388,9 @@ def run(r):
             continue
         case, impl, detail = f
         fam = case.split(" ", 1)[0]
+        if impl == "skipped":
+            r.hist["result"]["skipped"] += 1
+            continue
         r.count(case, nontrivial(case))
         r.hist["family"][fam] += 1
         r.hist["result"]["ok" if impl.startswith("ok:") else impl.split(">")[0][:40]] += 1
